@@ -105,6 +105,12 @@ def specStep (S : Sem Val Err Op) (s : SpecState Val Op) : Stmt Val Op → Expec
     | some e, some es =>
       (.createOrErr (eval S s.env e) (some o), { s with exprs := s.exprs ++ [e, e, .app o false e es] })
     | _, _ => (.invalid, s)
+  | .meth2 n o args args2 =>
+    match s.exprs[n]?, s.argExprs args, s.argExprs args2 with
+    | some e, some es, some es2 =>
+      (.createOrErr (eval S s.env e) (some o),
+        { s with exprs := s.exprs ++ [e, e, .app o false e es, e, .app o false e es2] })
+    | _, _, _ => (.invalid, s)
   | .bind g args =>
     match s.argExprs args with
     | some es => (.created, { s with exprs := s.exprs ++ [.call g es] })
@@ -130,6 +136,14 @@ def specStep (S : Sem Val Err Op) (s : SpecState Val Op) : Stmt Val Op → Expec
   | .ref n =>
     match s.exprs[n]? with
     | some e => (.createOrErr (eval S s.env e) none, { s with refs := s.refs ++ [e] })
+    | none => (.invalid, s)
+  | .isin n cop x =>
+    -- plain Python: `x in value` = operator.contains(value, x), a bool
+    match s.exprs[n]? with
+    | some e =>
+      (.read (match eval S s.env e with
+              | .ok val => S.apply cop [val, x]
+              | .error err => .error err), s)
     | none => (.invalid, s)
   | .readref h =>
     match s.refs[h]? with
